@@ -509,7 +509,7 @@ impl Sim {
                 self.model.s = model_before;
             }
         } else if mres.is_ok() {
-            self.compare_state(what, before, &model_before);
+            self.compare_state_guarded(what, before, &model_before);
         }
         self.viol.is_empty()
     }
@@ -646,6 +646,19 @@ impl Sim {
             s.insert(a.clone());
         }
         s
+    }
+
+    /// The state comparison asks the application many queries: a panic in there is the simulator's, not the
+    /// checker's.
+    fn compare_state_guarded(&mut self, what: &str, before: &BTreeMap<Vec<u8>, Vec<u8>>, model_before: &MState) {
+        let r = catch_unwind(AssertUnwindSafe(|| self.compare_state(what, before, model_before)));
+        if let Err(p) = r {
+            self.v(
+                &["C09", "C10", "C01", "C14"],
+                "query_panic",
+                format!("{}: a query through App (balances, supply, delegations, registry) panicked afterwards: {}", what, panic_message(&p)),
+            );
+        }
     }
 
     #[allow(deprecated)]
@@ -1323,7 +1336,7 @@ impl Sim {
         self.stats.steps += 1;
         self.stats.probe("external_write");
         self.model.module_calls.clear();
-        self.compare_state("contract_storage_mut write", &before, &model_before);
+        self.compare_state_guarded("contract_storage_mut write", &before, &model_before);
         self.viol.is_empty()
     }
 
